@@ -176,6 +176,9 @@ func Render(d Doc) string {
 		}
 		if p.Occu != "" {
 			fmt.Fprintf(&b, "1 OCCU %s\n", p.Occu)
+			if p.RPlac != "" { // a place below something that is not an event
+				fmt.Fprintf(&b, "2 PLAC O%s\n", p.RPlac)
+			}
 		}
 		for _, l := range p.Lines {
 			b.WriteString(l + "\n")
@@ -259,8 +262,9 @@ type Job struct {
 	Universe []string `json:"universe"`
 	Detail   bool     `json:"detail"` // record strings found and links per file
 	Taint    string   `json:"taint"`
-	GoMax    int      `json:"gomax"` // GOMAXPROCS of the child (0 = 4)
-	First    string   `json:"first"` // the decoded document is first published with this visibility, then as asked (same *Document)
+	GoMax    int      `json:"gomax"`    // GOMAXPROCS of the child (0 = 4)
+	EditFrom string   `json:"editfrom"` // instead of decoding the text: decode this one, publish it, delete the marked DEAT events, then publish as asked
+	First    string   `json:"first"`    // the decoded document is first published with this visibility, then as asked (same *Document)
 }
 
 type FileObs struct {
@@ -457,11 +461,31 @@ func Child(r io.Reader, w io.Writer) error {
 	run := Run{Files: []FileObs{}, Races: [][]string{}}
 	var mw *memWriter
 	for i, text := range job.Texts {
+		last := i == len(job.Texts)-1
+		if last && job.EditFrom != "" {
+			text = job.EditFrom
+		}
 		doc, err := gedcom.NewDocumentFromString(text)
 		if err != nil {
 			return fmt.Errorf("materialised document does not parse: %v", err)
 		}
-		last := i == len(job.Texts)-1
+		if last && job.EditFrom != "" {
+			// a history on one document in memory: published while some people were dead, then edited so that they live
+			o := job.Opts
+			o.Living = "show"
+			if job.Jobs%2 == 1 {
+				o.Individuals, o.Places, o.Surnames, o.Sources = false, false, false, false // only pages that look at few things
+				o.Families, o.Statistics = true, true
+			}
+			ghtml.NewPublisher(doc, options(o)).Publish(&memWriter{raw: map[int][]byte{}}, job.Jobs)
+			for _, ind := range doc.Individuals() {
+				for _, n := range ind.Nodes() {
+					if n.Tag().Is(gedcom.TagDeath) && len(n.Nodes()) == 1 && n.Nodes()[0].Value() == EditMarkDate {
+						ind.DeleteNode(n)
+					}
+				}
+			}
+		}
 		mw = &memWriter{raw: map[int][]byte{}, record: last}
 		if last {
 			mw.failK, mw.failM = job.FailK, job.FailM
@@ -677,6 +701,17 @@ func observe(c Case) Obs {
 			// the same decoded document published with everybody shown first, in the same process
 			add("aftershow", Job{Mode: "site", Texts: []string{text}, Opts: c.Opts, Jobs: jobs[0], Universe: uni, Detail: true, First: "show"}, false)
 		}
+		if c.Opts.Living != "show" {
+			// published while the living people still had a death event, which is then deleted from the document in memory
+			dead := c.Doc
+			dead.People = append([]Person{}, c.Doc.People...)
+			for k := range dead.People {
+				if kd := dead.People[k].Kind; kd == "nodate" || kd == "recent" || kd == "burialonly" {
+					dead.People[k].Lines = append(append([]string{}, dead.People[k].Lines...), "1 DEAT", "2 DATE "+EditMarkDate)
+				}
+			}
+			add("afteredit", Job{Mode: "site", Texts: []string{text}, Opts: c.Opts, Jobs: jobs[0], Universe: uni, Detail: true, EditFrom: Render(dead)}, false)
+		}
 		if hasPeople(c.Prior) {
 			add("prior", Job{Mode: "site", Texts: []string{Render(c.Prior), text}, Opts: c.Opts, Jobs: jobs[0]}, false)
 		}
@@ -699,6 +734,9 @@ func observe(c Case) Obs {
 	}
 	return o
 }
+
+// EditMarkDate marks the death events that the afteredit variant deletes again
+const EditMarkDate = "1 Jan 2000"
 
 // Taint is the token every value of a tainted document ends in
 const Taint = `<q7"'&>`
